@@ -67,6 +67,9 @@ CLAIMS = {
     "C19": ("property-based testing (rapid), differential: one structured configuration rendered in native and in JSON syntax, reference graph and outline compared",
             "One generated configuration model is rendered twice; absolute targets (address, type, scope, nesting), origin addresses with constraints up to the documented any-type fallback, and the block/attribute outline must agree between the two syntaxes.",
             "4/C19", TRUST + " Only schema-known attributes are written (JSON cannot tell unknown attributes from blocks); ranges and block-local targets are ignored as the statement says."),
+    "C08": ("property-based testing (rapid): validity predicate per value-completion candidate against the collected declarations and the attribute's constraint; round trip through go-to-definition",
+            "Terraform-like worlds with resolving references and half-typed values; every candidate inside an attribute value is judged: reference candidates are addresses of collected declarations, start with the typed text, are visible (block-local names, self.*), are not the edited attribute and fit the expected scope/type where known; function candidates are known functions with convertible return type; accepted reference candidates resolve back through go-to-definition.",
+            "4/C08", TRUST + " Soundness of candidates only ('offers only what fits'); the expected scope/type is judged only where the value is a plain traversal or empty."),
 }
 
 def main():
